@@ -36,13 +36,27 @@ for pid in sorted(props):
     th.append("* **%s** (%d): %s" % (pid, len(names), ", ".join("`%s`" % n.split(".")[-1] for n in names)))
 tab_th = "\n".join(th)
 # seeded
-rows = ["| seeded change | property | what it changes (needs) | result |", "|---|---|---|---|"]
+rows = ["| seeded change | property | what it changes (needs) | result when stored | re-run on /repo HEAD (tools/seed_regress.py) |", "|---|---|---|---|---|"]
 for d in sorted(glob.glob(os.path.join(H, "seeded", "*"))):
     m = json.load(open(os.path.join(d, "meta.json")))
     res = m.get("verified_by_coordinator", {})
     note = res.get("check_result") or res.get("check") or ""
-    rows.append("| %s | %s | %s — needs: %s | %s |" % (os.path.basename(d), m.get("property", "")[:3] if isinstance(m.get("property"), str) else os.path.basename(d)[:3],
-                short(m.get("summary", ""), 260), short(m.get("what_it_needs_to_manifest", ""), 200), short(note, 330)))
+    rg = ""
+    rp = os.path.join(d, "regress.json")
+    if os.path.exists(rp):
+        r = json.load(open(rp))
+        bits = ["HEAD %s" % r.get("head", "?")]
+        if not r.get("applies_to_head", True):
+            bits.append("patch no longer applies")
+        if "pinned_tests_pass_with_change" in r:
+            bits.append("81 pinned tests %s with the change" % ("pass" if r["pinned_tests_pass_with_change"] else "DO NOT pass"))
+        for k, v in (r.get("checks") or {}).items():
+            bits.append("%s: %s" % (k, ("violation, failing input" if v["rc"] == 1 and not v["no_failing_input_found"] else "violation, no-failing-input-found" if v["rc"] == 1 else "NOT reported (rc %d)" % v["rc"])))
+        rg = "; ".join(bits)
+    if m.get("neutralised"):
+        rg = "NEUTRALISED: " + m["neutralised"]
+    rows.append("| %s | %s | %s — needs: %s | %s | %s |" % (os.path.basename(d), m.get("property", "")[:3] if isinstance(m.get("property"), str) else os.path.basename(d)[:3],
+                short(m.get("summary", ""), 260), short(m.get("what_it_needs_to_manifest", ""), 200), short(note, 330), esc(rg)))
 tab_seed = "\n".join(rows)
 kf = json.load(open(os.path.join(H, "known_findings.json")))
 tab_fixed = "\n".join("* " + esc(x) for x in kf["fixed"])
